@@ -445,6 +445,10 @@ func GenPackage(r *Rand, name string, opts GenOpts) *WPackage {
 			for i, n := range famNames {
 				u.DiscMap = append(u.DiscMap, [2]string{fmt.Sprintf("v%c", 'a'+i), n})
 			}
+			if sr := r.Side("disc-alias"); sr.Chance(1, 2) {
+				// several discriminator values for one type (legal in an OpenAPI mapping)
+				u.DiscMap = append(u.DiscMap, [2]string{"zz_alias", famNames[0]}, [2]string{"aa_alias", famNames[0]})
+			}
 		}
 		holder := &WType{K: "struct", Fields: []WField{
 			{Name: "one", T: u, Required: true},
